@@ -1,0 +1,22 @@
+//go:build verif
+
+// Contracts for the deductive verification in /verif (comment-only; compiled code is unaffected).
+package util
+
+//@ func calculateExtentSize
+//@ requires items >= 1 && items <= 4611686018427387904
+//@ ensures [bounds] 1 <= result && result <= items
+
+// The worker goroutine: checked only as "spawned with this extent" (its body is concurrency, see DESIGN 2.3).
+//@ func Scatter$1
+
+//@ func Scatter
+//@ requires inputLen <= 4611686018427387904
+//@ ensures [nodata] inputLen <= 0 ==> result1 != nil && len(result0) == 0
+//@ hint-after calculateExtentSize@1 [workers] true
+//@ hint-after Scatter$1@1 [extent] offset == worker * extentSize && 0 <= offset && entries >= 1 && offset + entries <= inputLen && (entries == extentSize || offset + entries == inputLen) && (worker == workers - 1 ==> offset + entries == inputLen) && (worker < workers - 1 ==> entries == extentSize)
+//@ loop #1
+//@ invariant [range] 0 <= _n && _n < workers
+//@ invariant [cover] extentSize >= 1 && (workers - 1) * extentSize < inputLen && inputLen <= workers * extentSize
+//@ loop #2
+//@ invariant true
